@@ -121,6 +121,9 @@ func (g Genesis) String() string {
 	if g.Fork != nil && g.Fork.CheckInUpdateNew.Enabled {
 		f = fmt.Sprintf("fork@%d", g.Fork.CheckInUpdateNew.Height)
 	}
+	if g.DevMode {
+		f += " dev"
+	}
 	return fmt.Sprintf("gen{k=%v t=%d eon=%d %s vals=%d}", g.Keypers, g.Threshold, g.InitialEon, f, len(g.Validators))
 }
 
